@@ -75,6 +75,7 @@ pub fn gen_case(family: &str, i: u64, seed: u64, lim: &GenLimits) -> StaticCase 
         "union" => gen::union_family(&mut rng, 12),
         "layered" => gen::layered_family(&mut rng, 13),
         "many-components" => gen::many_components(&mut rng),
+        "stable-rich-over-64" => gen::stable_rich_over_64(&mut rng),
         "long-search" => {
             if rng.pct(34) {
                 // k two-cycles a_i <-> b_i, a self-attacking hub attacked by every a_i (sometimes by some
